@@ -324,6 +324,30 @@ func normalize(t *Term) *Term {
 				return C("true")
 			}
 		}
+	case OpSlice:
+		// x[a:b][c:d] is x[a+c : a+d] (and x[a:b][c:] is x[a+c : b])
+		if len(t.Args) == 3 {
+			if in := t.Args[0]; in.Op == OpSlice && len(in.Args) == 3 {
+				zero := func(x *Term) bool { return x.Op == OpConst && (x.Name == "" || x.Name == "0") }
+				add := func(a, b *Term) *Term {
+					switch {
+					case zero(a) && zero(b):
+						return C("")
+					case zero(a):
+						return b
+					case zero(b):
+						return a
+					}
+					return normalize(&Term{Op: OpBin, Name: "+", Args: []*Term{a, b}})
+				}
+				lo := add(in.Args[1], t.Args[1])
+				hi := in.Args[2]
+				if !(t.Args[2].Op == OpConst && t.Args[2].Name == "") {
+					hi = add(in.Args[1], t.Args[2])
+				}
+				return normalize(&Term{Op: OpSlice, Name: in.Name, Args: []*Term{in.Args[0], lo, hi}, Pos: t.Pos, Typ: t.Typ, Val: t.Val})
+			}
+		}
 	case "implies":
 		if len(t.Args) == 2 {
 			if t.Args[0].IsConst("true") {
